@@ -1,8 +1,9 @@
 """C06 - the build gate requires a green build on every integration commit.
 
 PROVE  coq/Properties/C06.v  (model Model/BuildGate.v against Spec/C06Spec.v, for every vector length)
-GEN    Facts_C06.v: the ranking tuple, the if/elif raise chain and the final assert of
-       check_build_status (read from the AST of /repo), and the kind (template/silent) of the three
+GEN    Facts_C06.v: the ranking of the statuses, the exception raised for each and the passing status of
+       check_build_status, observed on the live function over every single status and ordered pair (not read
+       from its AST: a restructured function yields the same facts), and the kind (template/silent) of the
        exception classes (read from the live classes).
 CORR   the real check_build_status on a stub job (SimpleNamespace job, scripted project_repo) against
        the extracted model, exhaustively over status vectors x bypass source x build key; unknown
@@ -50,51 +51,40 @@ def _strs(node):
     raise ValueError('expected a literal tuple, got %s' % ast.dump(node)[:80])
 
 
+CANONICAL = ['SUCCESSFUL', 'INPROGRESS', 'NOTSTARTED', 'STOPPED', 'FAILED']   # documented order, breaks ties only
+
+
 def gen_facts(ctx):
-    src = open(os.path.join(core.REPO, 'bert_e/workflow/gitwaterflow/__init__.py')).read()
-    fn = _func(ast.parse(src), 'check_build_status')
-    ordered = None
-    for node in ast.walk(fn):
-        if isinstance(node, ast.Call) and getattr(node.func, 'id', '') == 'enumerate':
-            ordered = _strs(node.args[0])
-    if ordered is None:
-        raise ValueError('ordered_state tuple not found')
-    # the if / elif chain on worst_status and the final assert
-    chain, assert_status = [], None
-    top_if = [n for n in fn.body if isinstance(n, ast.If) and 'worst_status' in ast.dump(n.test)]
-    if len(top_if) != 1:
-        raise ValueError('expected exactly one if-chain on worst_status')
-    node = top_if[0]
-    while True:
-        t = node.test
-        if not (isinstance(t, ast.Compare) and len(t.ops) == 1 and getattr(t.left, 'id', '') == 'worst_status'):
-            raise ValueError('unexpected test in chain: ' + ast.dump(t)[:100])
-        if isinstance(t.ops[0], ast.In):
-            sset = _strs(t.comparators[0])
-        elif isinstance(t.ops[0], ast.Eq) and isinstance(t.comparators[0], ast.Constant):
-            sset = [t.comparators[0].value]
-        else:
-            raise ValueError('unexpected comparison in chain')
-        if len(node.body) != 1 or not isinstance(node.body[0], ast.Raise):
-            raise ValueError('chain body is not a single raise')
-        exc = node.body[0].exc
-        call = exc.func if isinstance(exc, ast.Call) else exc
-        cls = call.attr if isinstance(call, ast.Attribute) else call.id
-        chain.append((sset, cls))
-        if len(node.orelse) == 1 and isinstance(node.orelse[0], ast.If):
-            node = node.orelse[0]
-        elif not node.orelse:
-            break
-        else:
-            raise ValueError('unexpected else branch in chain')
-    for n in fn.body:
-        if isinstance(n, ast.Assert):
-            t = n.test
-            if (isinstance(t, ast.Compare) and getattr(t.left, 'id', '') == 'worst_status'
-                    and isinstance(t.ops[0], ast.Eq)):
-                assert_status = t.comparators[0].value
-    if assert_status is None:
-        raise ValueError('final assert not found')
+    """The data of check_build_status, observed on the running function (every single status and every ordered
+    pair of the five statuses, gate consulted) rather than read from its AST, so that a restructured function
+    (lookup table, early returns, module constants) yields the same facts:
+      ordered_state  a ranking consistent with which status of a pair decides the outcome (ties, i.e. statuses
+                     with the same outcome, in the documented order);
+      raise_chain    exception class raised for each status, worst first;  assert_status  the status that passes.
+    The model instantiated with these facts is then compared with the function on every vector (CORR)."""
+    single = {s: impl_gate([s], 'none', 'pre-merge') for s in CANONICAL}
+    for s, o in single.items():
+        if o != 'Pass' and not o.startswith('Raise:'):
+            raise ValueError('check_build_status([%s]) ends with %s' % (s, o))
+    dom = {s: 0 for s in CANONICAL}
+    for a_ in CANONICAL:
+        for b_ in CANONICAL:
+            if single[a_] != single[b_] and impl_gate([a_, b_], 'none', 'pre-merge') == single[a_] \
+                    and impl_gate([b_, a_], 'none', 'pre-merge') == single[a_]:
+                dom[a_] += 1
+    ordered = sorted(CANONICAL, key=lambda s: (dom[s], CANONICAL.index(s)))
+    passing = [s for s in ordered if single[s] == 'Pass']
+    assert_status = passing[0] if passing else CANONICAL[0]
+    chain = []
+    for s in reversed(ordered):
+        if single[s].startswith('Raise:'):
+            cls = single[s][6:]
+            for sset, c in chain:
+                if c == cls:
+                    sset.append(s)
+                    break
+            else:
+                chain.append(([s], cls))
     from bert_e import exceptions as ex
     kinds = []
     for _, cls in chain:
@@ -140,8 +130,13 @@ def impl_gate(statuses, source, key):
     try:
         if source == 'comment':
             settings['bypass_build_status'] = True
-        elif source == 'author':
-            author_bypass = {'bypass_build_status': True}
+        elif source in ('author', 'author_other'):
+            # pr_author_options[author] as the real settings loader builds it; author_other = the author is
+            # listed, with every bypass except this one
+            from bert_e.settings import PrAuthorsOptions
+            listed = (['bypass_build_status'] if source == 'author' else
+                      [b for b in PrAuthorsOptions.BYPASS_LIST if b != 'bypass_build_status'])
+            author_bypass = PrAuthorsOptions().deserialize({'author': listed})['author']
         elif source == 'cmdline':
             gwf.setup({'bypass_build_status': True})
             Reactor().init_settings(SimpleNamespace(settings=settings))
@@ -181,7 +176,7 @@ def impl_verdict(outcome):
 
 def domain(ctx):
     maxlen = 4 if ctx.quick else 6
-    sources = ['none', 'comment', 'author', 'cmdline']
+    sources = ['none', 'comment', 'author', 'cmdline', 'author_other']
     keys = ['', 'pre-merge']
     for n in range(1, maxlen + 1):
         for vec in itertools.product(STATUSES, repeat=n):
@@ -211,7 +206,7 @@ def run(ctx, cases=None):
     cases_given = cases is not None
     cases = list(domain(ctx)) if cases is None else cases
     ctx.rule = ('exhaustive product of status vectors of length 1..%d over the 5 statuses x bypass source '
-                '{none, comment, per-author, command line} x build key {empty, pre-merge}, plus a malformed '
+                '{none, comment, per-author, command line, author listed with other bypasses only} x build key {empty, pre-merge}, plus a malformed '
                 'stream (unknown status, empty vector); non-trivial = distinct case in which the gate is '
                 'actually consulted (no bypass, key set)' % (4 if ctx.quick else 6))
     ctx.exhaustive = True
